@@ -86,6 +86,15 @@ func opsClassify(p opsPoint, s, g opsOutcome) []opsFinding {
 func runOps(prop, tier, replay string) {
 	run := ev.Start(prop, tier, "model_checking")
 	if replay != "" {
+		var uh []unOp
+		if loadReplay(replay, &uh) == nil && len(uh) > 0 && uh[0].T != "" {
+			unCheck(run, [][]unOp{uh}, prop)
+			run.Set("states", 1)
+			run.Set("transitions", 1)
+			run.Set("traces_validated_against_impl", 1)
+			run.Sample(histText(uh))
+			run.Finish()
+		}
 		var shp shapeReplay
 		if prop == "C02" && loadReplay(replay, &shp) == nil && shp.Shape.Tree != nil && shp.Var != "" {
 			shapeCheck(run, []prPoint{shp.Shape}, shp.Var)
@@ -174,6 +183,10 @@ func runOps(prop, tier, replay string) {
 		biRun(run, prop)
 		run.Finish()
 	}
+	if os.Getenv("VERIF_ONLY") == "units" { // development aid: only the unit-literal engine
+		unRun(run, tier, prop)
+		run.Finish()
+	}
 	if os.Getenv("VERIF_ONLY") == "shapes" { // development aid: only the expression-shape engine
 		shapeRun(run, tier)
 		run.Finish()
@@ -218,6 +231,10 @@ func runOps(prop, tier, replay string) {
 	if prop != "C04" { // composite literals, index and slice expressions, indirection (Lits.tla)
 		st5, tr5, n5 := litRun(run, tier, prop)
 		states, transitions, points = states+st5, transitions+tr5, points+n5
+	}
+	{ // literals with a unit (Units.tla)
+		st9, tr9, n9 := unRun(run, tier, prop)
+		states, transitions, points = states+st9, transitions+tr9, points+n9
 	}
 	{ // predeclared functions (Builtins.tla)
 		st7, tr7, n7 := biRun(run, prop)
